@@ -145,12 +145,17 @@ func newDsts(c combo) *dsts {
 }
 
 type fidStats struct {
-	decodes, buffered, reads int64
+	decodes, buffered, reads, reused int64
 }
 
 // readBack decodes e.data with destination frames whose lengths cycle through
 // dstSeq and checks every Read against the reference.
-func readBack(e *encoded, d *dsts, dstSeq []int, dview bool, rkind int, st *fidStats) (fail *fidFail) {
+//
+// With reuse the destination allocations are filled with sentinels only once,
+// before the first Read, and then handed to Read again and again with whatever
+// the previous Reads left in them (the usual way a Reader is consumed); rows
+// outside [0,n) must then keep what they held before the call.
+func readBack(e *encoded, d *dsts, dstSeq []int, dview, reuse bool, rkind int, st *fidStats) (fail *fidFail) {
 	var (
 		readIdx int
 		next    int
@@ -160,7 +165,7 @@ func readBack(e *encoded, d *dsts, dstSeq []int, dview bool, rkind int, st *fidS
 	mk := func(oracle string, extra map[string]interface{}) *fidFail {
 		det := map[string]interface{}{
 			"columns": e.c.String(), "phase": e.phase, "writer_frames_are_views": e.wview,
-			"batch_lengths": e.lens, "dst_lengths_cyclic": dstSeq, "dst_is_view": dview,
+			"batch_lengths": e.lens, "dst_lengths_cyclic": dstSeq, "dst_is_view": dview, "dst_reused_across_reads": reuse,
 			"reader":     []string{"bytes.Reader", "one-byte plain io.Reader"}[rkind],
 			"read_index": readIdx, "rows_delivered_before": next, "rows_written": e.truth,
 			"n": lastN, "err": fmt.Sprint(lastErr), "stream_hex": fmt.Sprintf("%x", e.data),
@@ -186,6 +191,14 @@ func readBack(e *encoded, d *dsts, dstSeq []int, dview bool, rkind int, st *fidS
 	mb, mbuf, usedBuf := 0, 0, false
 	maxReads := len(e.lens) + len(e.truth) + 3
 	var rb []byte
+	if reuse {
+		atomic.AddInt64(&st.reused, 1)
+		d.view.fill()
+		for L := 1; L <= 4; L++ {
+			d.exact[L].fill()
+		}
+	}
+	var before [6]string
 	for ; ; readIdx++ {
 		if readIdx >= maxReads {
 			return mk("no-progress", nil)
@@ -196,12 +209,21 @@ func readBack(e *encoded, d *dsts, dstSeq []int, dview bool, rkind int, st *fidS
 		off := 0
 		if dview {
 			s, off = d.view, 1
-			s.fill()
 			dst = s.full.Slice(1, 1+L)
 		} else {
 			s = d.exact[L]
-			s.fill()
 			dst = s.full
+		}
+		if reuse {
+			for i := 0; i < s.n; i++ {
+				rb = s.row(rb[:0], i)
+				before[i] = string(rb)
+			}
+		} else {
+			s.fill()
+			for i := 0; i < s.n; i++ {
+				before[i] = s.sentR
+			}
 		}
 		if mbuf == 0 && mb < len(e.lens) {
 			if e.lens[mb] > L {
@@ -248,8 +270,8 @@ func readBack(e *encoded, d *dsts, dstSeq []int, dview bool, rkind int, st *fidS
 				continue
 			}
 			rb = s.row(rb[:0], i)
-			if string(rb) != s.sentR {
-				return mk("dst-beyond-n-modified", map[string]interface{}{"storage_row": i, "dst_rows": []int{off, off + L}, "got_row": string(rb)})
+			if string(rb) != before[i] {
+				return mk("dst-beyond-n-modified", map[string]interface{}{"storage_row": i, "dst_rows": []int{off, off + L}, "got_row": string(rb), "row_before_read": before[i]})
 			}
 		}
 		next += n
